@@ -103,6 +103,13 @@ SPECIAL = [
     ('gamma', lambda s, x: s.gamma(x), (0.4, 4.0)), ('gammaln', lambda s, x: s.gammaln(x), (0.4, 5.0)), ('gammainc_x', lambda s, x: s.gammainc(1.8, x), (0.2, 5.0)),
     ('gammaincc_x', lambda s, x: s.gammaincc(1.8, x), (0.2, 5.0)), ('rgamma', lambda s, x: s.rgamma(x), (0.4, 4.0)),
     ('multigammaln', lambda s, x: s.multigammaln(x, 2), (1.2, 5.0)),
+    # every integer order near the boundary of the recurrences (J_{-1} = -J_1, Y_{-1} = -Y_1, I_{-1} = I_1)
+    ('jn0', lambda s, x: s.jn(0, x), (0.3, 8.0)), ('jn1', lambda s, x: s.jn(1, x), (0.3, 8.0)), ('jn3', lambda s, x: s.jn(3, x), (0.3, 8.0)),
+    ('yn0', lambda s, x: s.yn(0, x), (0.5, 8.0)), ('yn1', lambda s, x: s.yn(1, x), (0.5, 8.0)), ('yn3', lambda s, x: s.yn(3, x), (0.8, 8.0)),
+    ('iv0', lambda s, x: s.iv(0, x), (0.1, 4.0)), ('iv1', lambda s, x: s.iv(1, x), (0.1, 4.0)), ('iv0.5', lambda s, x: s.iv(0.5, x), (0.3, 4.0)),
+    ('iv3', lambda s, x: s.iv(3, x), (0.3, 4.0)), ('ive0', lambda s, x: s.ive(0, x), (0.1, 4.0)), ('ive1', lambda s, x: s.ive(1, x), (0.1, 4.0)),
+    ('polygamma0', lambda s, x: s.polygamma(0, x), (0.4, 5.0)), ('polygamma2', lambda s, x: s.polygamma(2, x), (0.4, 5.0)),
+    ('multigammaln1', lambda s, x: s.multigammaln(x, 1), (0.4, 5.0)), ('multigammaln3', lambda s, x: s.multigammaln(x, 3), (1.4, 5.0)),
     ('erf', lambda s, x: s.erf(x), (-2.0, 2.0)), ('erfc', lambda s, x: s.erfc(x), (-2.0, 2.0)), ('erfinv', lambda s, x: s.erfinv(x), (-0.8, 0.8)),
     ('erfcinv', lambda s, x: s.erfcinv(x), (0.2, 1.8)), ('logit', lambda s, x: s.logit(x), (0.1, 0.9)), ('expit', lambda s, x: s.expit(x), (-3.0, 3.0)),
 ]
